@@ -93,7 +93,12 @@ func AddStandardFilters(fd FilterDictionary) { //nolint: gocyclo
 	fd.AddFilter("floor", func(a float64) int {
 		return int(math.Floor(a))
 	})
-	fd.AddFilter("modulo", math.Mod)
+	fd.AddFilter("modulo", func(a, b float64) (float64, error) {
+		if b == 0 {
+			return 0, errDivisionByZero
+		}
+		return math.Mod(a, b), nil
+	})
 	fd.AddFilter("minus", func(a, b float64) float64 {
 		return a - b
 	})
@@ -133,6 +138,16 @@ func AddStandardFilters(fd FilterDictionary) { //nolint: gocyclo
 			return divInt(int64(a), int64(q))
 		case uint32:
 			return divInt(int64(a), int64(q))
+		case uint:
+			if uint64(q) > math.MaxInt64 {
+				return int64(0), nil // the divisor exceeds every int64 dividend
+			}
+			return divInt(int64(a), int64(q))
+		case uint64:
+			if q > math.MaxInt64 {
+				return int64(0), nil
+			}
+			return divInt(int64(a), int64(q))
 		case float32:
 			return divFloat(a, float64(q))
 		case float64:
@@ -144,7 +159,14 @@ func AddStandardFilters(fd FilterDictionary) { //nolint: gocyclo
 	fd.AddFilter("round", func(n float64, places func(int) int) float64 {
 		pl := places(0)
 		exp := math.Pow10(pl)
-		return math.Floor(n*exp+0.5) / exp
+		// round half up; adding 0.5 before taking the floor is off by one for
+		// operands just below .5 (0.49999999999999994 + 0.5 rounds to 1)
+		x := n * exp
+		r := math.Floor(x)
+		if x-r >= 0.5 {
+			r++
+		}
+		return r / exp
 	})
 
 	// sequence filters
